@@ -203,6 +203,71 @@ def mismatched_fusion_program(seed):
     return (('mismatched-fusion', seed), prog)
 
 
+def must_reject_program(seed):
+    """a contraction whose bond dimensions do not match must be REJECTED whatever ran before: both operands are first used in valid contractions
+    (so every per-operand cache entry is warm), then contracted with each other; the outcome recorded is the kind of exception or 'answered'"""
+    import yastn, tgen
+
+    def prog():
+        out = []
+        rng = random.Random(seed)
+        for pol in tgen.POLICIES:
+            for sym in ('U1', 'Z2', 'dense'):
+                cfg = tgen.make_cfg(sym, False, pol)
+                if sym == 'dense':
+                    l1, l2 = yastn.Leg(cfg, s=1, D=[2]), yastn.Leg(cfg, s=1, D=[3])
+                else:
+                    l1, l2 = yastn.Leg(cfg, s=1, t=[(0,), (1,)], D=[2, 3]), yastn.Leg(cfg, s=1, t=[(0,), (1,)], D=[3, 2])
+                x = tgen.rleg(rng, cfg, sym, maxD=2)
+                a = yastn.ones(cfg, legs=[x, l1, l2])                        # every admissible block present; contracted legs (l1, l2): fused sizes agree with (l2, l1)
+                b = yastn.ones(cfg, legs=[l2.conj(), l1.conj(), x.conj()])
+                if not (set(a.get_legs(1).t) & set(b.get_legs(0).t)):
+                    continue
+                pa = tgen.rtensor(rng, cfg, [l1.conj(), l2.conj(), x])       # valid partners
+                pb = tgen.rtensor(rng, cfg, [x, l2, l1])
+                for _rep in range(2):
+                    out.append(tgen.snapshot(yastn.tensordot(a, pa, axes=((1, 2), (0, 1)))))
+                    out.append(tgen.snapshot(yastn.tensordot(pb, b, axes=((1, 2), (0, 1)))))
+                    try:
+                        yastn.tensordot(a, b, axes=((1, 2), (0, 1)))
+                        out.append(('must-reject', pol, sym, 'answered'))
+                    except yastn.YastnError:
+                        out.append(('must-reject', pol, sym, 'YastnError'))
+        return out
+    return (('must-reject', seed), prog)
+
+
+def inplace_after_use_program(seed):
+    """the documented in-place API (item assignment) on a lazily transposed tensor AFTER that tensor took part in operations: later operations
+    see the new content (nothing computed earlier for that tensor object may be reused); returns ('stale', ...) entries when they do not"""
+    import yastn, tgen
+
+    def prog():
+        out = []
+        rng = random.Random(seed)
+        for sym in ('U1', 'Z2', 'dense'):
+            cfg = tgen.make_cfg(sym, False, rng.choice(tgen.POLICIES))
+            legs = [tgen.rleg(rng, cfg, sym, maxD=2) for _ in range(3)]
+            a = tgen.rtensor(rng, cfg, legs, n=tgen.allowed_charge(rng, cfg, sym, legs))
+            if a.size == 0:
+                continue
+            perm = rng.choice([(1, 0, 2), (2, 0, 1), (0, 2, 1), (2, 1, 0)])
+            at = a.transpose(perm)
+            b = tgen.rtensor(rng, cfg, [legs[p] for p in perm], n=a.n)
+            uses = [lambda t: t + b, lambda t: yastn.vdot(t, b), lambda t: t.to_numpy(), lambda t: yastn.tensordot(t, b.conj(), axes=((0, 1), (0, 1)))]
+            first = rng.choice(uses)
+            first(at)                                   # the tensor is used (its transposition gets materialised somewhere inside)
+            key = at.get_blocks_charge()[0] if sym != 'dense' else ()
+            at[key] = 3 * at[key] + 1                   # in-place update through the public API
+            for use in uses:
+                got = use(at)
+                want = use(at.copy())                   # a fresh object with the same content has no past
+                same = np.array_equal(got, want) if isinstance(got, np.ndarray) else (tgen.snapshot(got) == tgen.snapshot(want) if hasattr(got, 'struct') else got == want)
+                out.append(('stale' if not same else 'fresh', sym, perm))
+        return out
+    return (('inplace-after-use', seed), prog)
+
+
 def generated_programs(kinds, seeds):
     import tgen
 
@@ -272,13 +337,24 @@ def run(ctx):
     for sd in range(3 if quick else 12):
         progs += shared_layout_programs(1000 + sd)
         progs.append(mismatched_fusion_program(2000 + sd))
+        progs.append(must_reject_program(3000 + sd))
+        progs.append(inplace_after_use_program(4000 + sd))
     control_reaches_every_handle(ctx, progs)
     # ---- cold reference (no probes: pristine wrappers, cache cleared before every program)
     cold = {}
     for key, prog in progs:
         yastn.clear_cache()
         try:
-            cold[key] = digest(prog())
+            raw = prog()
+            cold[key] = digest(raw)
+            answered = [x for x in raw if isinstance(x, tuple) and x and x[0] == 'must-reject' and x[-1] == 'answered'] if isinstance(raw, list) else []
+            stale = [x for x in raw if isinstance(x, tuple) and x and x[0] == 'stale'] if isinstance(raw, list) else []
+            if stale:
+                ctx.violation('after an in-place item assignment a lazily transposed tensor still behaves as before the assignment in later operations (something computed '
+                              'earlier for that object is reused): %r' % (stale[:2],), dict(kind='stale-after-inplace', program=repr(key), entries=[list(map(str, x)) for x in stale[:4]]))
+            if answered:
+                ctx.violation('a contraction over legs of different dimensions was answered instead of rejected once its operands had been used in valid contractions '
+                              '(the outcome depends on what ran before): %r' % (answered[:2],), dict(kind='must-reject-answered', program=repr(key), entries=[list(x) for x in answered[:4]]))
         except Exception as e:
             cold[key] = ('EXC', type(e).__name__, str(e)[:200])
         ctx.case(dict(kind='program', key=repr(key)), nontrivial=True)
